@@ -12,6 +12,7 @@ import Ipv8.C18.LemmasProto
 import Ipv8.C18.LemmasSer
 import Ipv8.C18.LemmasVerifier
 import Ipv8.C18.LemmasBounds
+import Ipv8.C18.LemmasMore
 import Mathlib.Data.ZMod.Basic
 
 namespace Ipv8.C18
@@ -109,6 +110,13 @@ theorem intpowP_law (p : Int) (hp : ((p : Int) : S) = 0) (v : FP2 Int) (n : Nat)
 
 end cast_laws
 
+/-- `intpow` with a NEGATIVE exponent (`R.inverse().normalize()`, used by every `EL.check` and by `g.intpow(a - 1)`
+    for a = 0): the inverse of the n-th power, for every prime modulus -/
+theorem intpowP_neg_law (p : Nat) (hp : p.Prime) (v : FP2 Int) (n : Nat) (hn : 0 < n) :
+    (castV (intpowP p v (-(n : Int))) : FP2 (ZMod p)).num * (castV v : FP2 (ZMod p)).num ^ n
+      = (castV v : FP2 (ZMod p)).den ^ n * (castV (intpowP p v (-(n : Int))) : FP2 (ZMod p)).den :=
+  intpowP_neg_cross p hp v n hn
+
 /-- `_modinv` (extended Euclid): `_modinv(e, m)·e ≡ gcd(e, m) (mod m)` for all e ≥ 0, m > 0 — the inverse when coprime -/
 theorem modinv_correct (e m : Int) (he : 0 ≤ e) (hm : 0 < m) (hg : Int.gcd e m = 1) :
     (modinv e m * e) % m = 1 % m := by
@@ -181,6 +189,13 @@ theorem decode_encode (sk : PrivKey A) (space : List Nat) (m : Nat) (x : A)
     (hinj : ∀ m' ∈ space, m' • (sk.t1 • sk.g) = m • (sk.t1 • sk.g) → m' = m) :
     decode (𝔾) sk space (encWith (𝔾) sk.g m x) = some m :=
   decode_correct sk space m x hx hm hinj
+
+/-- `decode` over the byte message space `range(256)` (PengBaoCommitmentPrivate.MSGSPACE): correct as soon as the
+    order of g^t1 exceeds 255 -/
+theorem decode_encode_byte_space (sk : PrivKey A) (m : Nat) (x : A) (hx : sk.t1 • x = 0) (hm : m < 256)
+    (hsep : ∀ k : Nat, 0 < k → k < 256 → k • (sk.t1 • sk.g) ≠ 0) :
+    decode (𝔾) sk (List.range 256) (encWith (𝔾) sk.g m x) = some m :=
+  decode_correct sk (List.range 256) m x hx (by simpa using hm) (range_space_inj _ 256 hsep m hm)
 
 /-- `encode` on any tape yields g^m times a blinding factor of the subgroup of h -/
 theorem encode_blinded (sk : PrivKey A) (H : BonehHyp sk) (m : Nat) (tape rest : List Nat) (c : A)
@@ -337,15 +352,28 @@ theorem outside_rejected (hash : A → A → Int) (g h : A) (value a b : Int) (r
   have := create_outside_none hash g h value a b rnd hab hout
   exact ⟨this, by unfold rangeRound; rw [this]⟩
 
-/-- … and a prover who follows the same algebra with ANY split m1 + m2 + m3 = mst ≤ 0 (m3 a square) is rejected by
-    the positivity test for every challenge s, t ≥ 1, whatever public data it presents -/
-theorem outside_any_split_rejected (hash : A → A → Int) (g h : A) (pd : RangePublic A) (pv : RangePriv)
+/- FULL STATEMENT the property text suggests (NOT provable, refuted by `outside_accepted_by_order_shift` below):
+     "whatever a prover does, a proof for a value outside [a, b] is rejected".
+   Proved part: provers that follow the algebra with an INTEGER split m1 + m2 + m3 = mst ≤ 0 (m3 a square, hence ≥ 0)
+   fail the positivity test for every challenge s, t ≥ 1.  What is missing: splits that satisfy the equation only
+   modulo the order of g (a prover who owns the key knows that order). -/
+theorem outside_integer_split_rejected_partial (hash : A → A → Int) (g h : A) (pd : RangePublic A) (pv : RangePriv)
     (w value a b s t : Int) (hab : a ≤ b) (hout : value < a ∨ b < value)
     (hsum : pv.m1 + pv.m2 + pv.m3 = mstOf w value a b) (h3 : 0 ≤ pv.m3) (hs : 1 ≤ s) (ht : 1 ≤ t) :
     rangeCheck (𝔾) hash g h pd a b s t (pv.response s t).1 (pv.response s t).2.1 (pv.response s t).2.2.1
       (pv.response s t).2.2.2 = false := by
   apply rangeCheck_nonpos
   exact answers_nonpos pv.m1 pv.m2 pv.m3 _ s t hsum (mst_nonpos_outside w value a b hab hout) h3 hs ht
+
+/-- NEGATION of the full statement (known finding `…outside-accepted:prover-knows-group-order`): a prover who knows a
+    multiple n of the order of g and shifts m2 by K·n passes the check for ANY value — inside or outside [a, b] — as
+    soon as both answers are positive (always achievable: choose K large). -/
+theorem outside_accepted_by_order_shift (hash : A → A → Int) (g h : A) (n K value a b : Int) (rnd : RangeRand)
+    (s t : Int) (hn : n • g = 0)
+    (hx : 0 < s * rnd.m1 + (mstOf rnd.w value a b - rnd.m1 - rnd.m4 * rnd.m4 + K * n) + rnd.m4 * rnd.m4)
+    (hy : 0 < rnd.m1 + t * (mstOf rnd.w value a b - rnd.m1 - rnd.m4 * rnd.m4 + K * n) + rnd.m4 * rnd.m4) :
+    cheatRound (𝔾) hash g h value a b rnd (mstOf rnd.w value a b - rnd.m1 - rnd.m4 * rnd.m4 + K * n) s t = true :=
+  order_shift_accepted' hash g h n K value a b rnd s t hn hx hy
 
 end range
 
@@ -383,25 +411,6 @@ theorem one_proof_one_range (hash : A → A → Int) (g h : A) (pd : RangePublic
     (a - a') • g = 0 ∧ (b - b') • g = 0 :=
   accept_two_ranges hash g h pd a b s t x y u v a' b' s' t' x' y' u' v' h1 h2
 
-/-- histories of checks on one attestation object: the verdict on the last query does not depend on the queries
-    that were checked before it … -/
-theorem verdict_history_independent (hash : A → A → Int) (g h : A) (pd : RangePublic A)
-    (before : List RangeQuery) (q : RangeQuery) :
-    (rangeCheckSeq (𝔾) hash g h pd (before ++ [q])).getLast? =
-      some (rangeCheck (𝔾) hash g h pd q.a q.b q.s q.t q.x q.y q.u q.v) := by
-  simp [rangeCheckSeq]
-
-/-- … so in ANY history of queries on an honestly built proof for [a, b], every accepted query has the prover's
-    bounds (modulo the order of g), whatever was accepted or rejected earlier -/
-theorem every_accepted_query_has_own_range (hash : A → A → Int) (g h : A) (value a b : Int) (rnd : RangeRand)
-    (pd : RangePublic A) (pv : RangePriv)
-    (hc : createAttestPair (𝔾) hash g h value a b rnd = some (pd, pv)) (qs : List RangeQuery) (i : Nat)
-    (hi : i < qs.length) (hacc : (rangeCheckSeq (𝔾) hash g h pd qs)[i]? = some true) :
-    (a - qs[i].a) • g = 0 ∧ (b - qs[i].b) • g = 0 := by
-  simp only [rangeCheckSeq, List.getElem?_map, List.getElem?_eq_getElem hi, Option.map_some,
-    Option.some.injEq] at hacc
-  exact honest_accept_binds hash g h value a b rnd pd pv hc _ _ _ _ _ _ _ _ hacc
-
 end bounds
 
 /-! ### the verifier's bookkeeping (wallet/community.py): every answer is counted at most once, whatever the network does
@@ -411,36 +420,48 @@ end bounds
   unsolicited datagrams are all event sequences. -/
 
 /-- the aggregate is the histogram of the counted answers, the counted challenges are DISTINCT real challenges that
-    are no longer outstanding, and every real challenge is either outstanding or counted -/
+    are no longer outstanding, and every real challenge is outstanding, counted, or was consumed by an answer byte
+    above 3 (the handler is left by a KeyError after the pending cache and the challenge were removed) -/
 theorem verifier_counts_each_challenge_once (n : Nat) (evs : List VEvent) :
     let s := VState.run n evs
     s.relmap = aggregate (s.log.map Prod.snd) ∧ (s.log.map Prod.fst).Nodup
       ∧ (∀ id ∈ s.log.map Prod.fst, id < n ∧ id ∉ s.unanswered)
-      ∧ (∀ id, id < n → id ∈ s.unanswered ∨ id ∈ s.log.map Prod.fst) := by
+      ∧ (∀ id, id < n → id ∈ s.unanswered ∨ id ∈ s.log.map Prod.fst ∨ id ∈ s.dropped) := by
   intro s
   have h := inv_run n evs
   have hn := run_n n evs
   exact ⟨h.rel, h.log_nodup, fun id hid => by rw [← hn]; exact h.log_lt id hid,
     fun id hid => h.cover id (by rw [hn]; exact hid)⟩
 
-/-- honest prover (the answer to challenge id is always `ans id`), any schedule: the aggregate is the histogram of
-    `ans` over the distinct counted challenges … -/
-theorem verifier_aggregate_any_schedule (ans : Nat → Nat) (n : Nat) (evs : List VEvent)
+/-- honest prover (the answer to challenge id is always `ans id ≤ 3`), any schedule: no challenge is lost, and the
+    aggregate is the histogram of `ans` over the distinct counted challenges … -/
+theorem verifier_aggregate_any_schedule (ans : Nat → Nat) (hans : ∀ id, ans id ≤ 3) (n : Nat) (evs : List VEvent)
     (hon : ∀ id r h, VEvent.response id r h ∈ evs → id < n → r = ans id) :
+    (VState.run n evs).dropped = [] ∧
     (VState.run n evs).relmap = aggregate (((VState.run n evs).log.map Prod.fst).map ans) := by
-  have g := good_run ans n evs hon
-  exact relmap_of_honest ans _ g.inv g.honest
+  have g := good_run ans hans n evs hon
+  exact ⟨g.nodrop, relmap_of_honest ans _ g.inv g.honest⟩
 
 /-- … and every aggregate the completion callback ever receives is the complete profile (or the empty map of the
     failed-honesty-check path): duplicates can neither inflate a class nor complete the round early -/
-theorem verifier_completion_is_full_profile (ans : Nat → Nat) (n : Nat) (evs : List VEvent)
-    (hon : ∀ id r h, VEvent.response id r h ∈ evs → id < n → r = ans id) :
+theorem verifier_completion_is_full_profile (ans : Nat → Nat) (hans : ∀ id, ans id ≤ 3) (n : Nat)
+    (evs : List VEvent) (hon : ∀ id r h, VEvent.response id r h ∈ evs → id < n → r = ans id) :
     ∀ c ∈ (VState.run n evs).completions, c = Rel.empty ∨ c = aggregate ((List.range n).map ans) := by
-  have g := good_run ans n evs hon
+  have g := good_run ans hans n evs hon
   have hn := run_n n evs
   intro c hc
   have := g.done c hc
   rwa [hn] at this
+
+/-- a wrong answer to a honesty check (known plaintext hc, answer r ≠ hc) makes the verifier report the empty
+    aggregate: every value then scores 0 -/
+theorem failed_honesty_check_reports_empty (s : VState) (id r : Nat) (hc : Int) (h0 : 0 ≤ hc) (hne : (r : Int) ≠ hc) :
+    (s.afterAnswer id r hc).1.liar = true ∧ Rel.empty ∈ (s.afterAnswer id r hc).1.completions
+      ∧ ∀ e : Rel, certaintyQ e Rel.empty = 0 := by
+  have hn : ¬ hc < 0 := by omega
+  refine ⟨by simp [VState.afterAnswer, hn, hne], by simp [VState.afterAnswer, hn, hne], ?_⟩
+  intro e
+  simp [certaintyQ, Rel.empty, Rel.total, halfPow]
 
 /-- non-vacuity: two challenges, the answer to challenge 0 delivered three times, then challenge 1 -/
 example : (VState.run 2 [.response 0 1 none, .response 0 1 none, .response 0 1 (some 2), .response 1 2 none]).completions
@@ -469,5 +490,23 @@ example : certaintyQ ⟨5, 6, 5, 0⟩ ⟨4, 7, 5, 0⟩ = 0 := other_profile_scor
 example : rangeRound (GroupOps.ofAdd (ZMod 15)) (fun _ _ => 7) 1 5 20 18 30
     ⟨2, 3, 4, 5, 6, 100, 11, 12, ⟨1, 2, 3⟩, 4, ⟨5, 6, 7⟩, 8, ⟨9, 10, 11⟩⟩ 40000 50000 = some true :=
   range_complete _ _ _ _ _ _ _ _ _ (by decide) (by decide) (by decide) (by decide) (by decide) (by decide) (by decide)
+
+
+/-- concrete witness of the known finding: value 5 outside [18, 20], g = 1 of order 15 in ℤ/15, m2 shifted by 40·15 -/
+example : cheatRound (GroupOps.ofAdd (ZMod 15)) (fun _ _ => 7) 1 5 5 18 20
+    ⟨2, 3, 4, 1, 1, 1, 11, 12, ⟨1, 2, 3⟩, 4, ⟨5, 6, 7⟩, 8, ⟨9, 10, 11⟩⟩
+    (mstOf 1 5 18 20 - 1 - 1 * 1 + 40 * 15) 40000 50000 = true :=
+  outside_accepted_by_order_shift _ 1 5 15 40 5 18 20 _ 40000 50000 (by decide) (by decide) (by decide)
+
+
+/-- non-vacuity of the decode and serialisation theorems -/
+example : decode (GroupOps.ofAdd (ZMod 15)) toyKey [0, 1, 2] (encWith (GroupOps.ofAdd (ZMod 15)) toyKey.g 2 5) = some 2 :=
+  decode_encode toyKey [0, 1, 2] 2 5 (by decide) (by simp)
+    (small_inj toyKey (by refine ⟨?_, ?_, ?_, ?_⟩ <;> simp [toyKey] <;> decide) 2 (by decide))
+
+example : KeyInts.unserialize ((⟨29, 3, 4, 5, 6⟩ : KeyInts).serialize ++ [9]) = some (⟨29, 3, 4, 5, 6⟩, [9]) :=
+  public_key_roundtrip _ _ (packable_of_lt _ (by norm_num)) (packable_of_lt _ (by norm_num))
+    (packable_of_lt _ (by norm_num)) (packable_of_lt _ (by norm_num)) (packable_of_lt _ (by norm_num))
+    (by decide) (by decide) (by decide) (by decide)
 
 end Ipv8.C18
